@@ -882,8 +882,11 @@ func (app *BaseApp) runMsg(ctx sdk.Ctx, msg sdk.Msg, mode runTxMode, signer cryp
 		return sdk.ErrUnknownRequest("unrecognized ProtoMsg type: " + msgRoute).Result()
 	}
 	var msgResult sdk.Result
-	// skip actual execution for CheckTx mode
-	if mode != runTxModeCheck {
+	// skip actual execution for CheckTx mode, and for simulations too: txContext hands the handler the live
+	// working stores, and handlers also touch node-local state outside the multistore (keeper object caches,
+	// the codec upgrade schedule). A simulation is reachable without a valid signature through the ABCI query
+	// /app/simulate, so running the handler there lets anyone change the state the next block builds on.
+	if mode == runTxModeDeliver {
 		msgResult = handler(ctx, msg, signer)
 	}
 	// Each message result's Data must be length prefixed in order to separate
